@@ -6,8 +6,7 @@ unsafe impl Sync for NoSend {}
 struct Wrapped<T, M> { items: std::vec::IntoIter<T>, _m: M }
 impl<T, M> Iterator for Wrapped<T, M> { type Item = T; fn next(&mut self) -> Option<T> { self.items.next() } }
 fn main() {
-    let col: Vec<String> = vec![String::from("a"), String::from("b"), String::from("c")];
-    let it = col.into_iter().into_con_iter();
-    let c = it.next_chunk(2);
-    if let Some(x) = c { let _n = x.values.count(); }
+    let col: [NoSend; 2] = [NoSend(std::ptr::null()), NoSend(std::ptr::null())];
+    let it = col.into_con_iter();
+    std::thread::scope(|s| { s.spawn(move || { let _ = it.next(); }); });
 }
